@@ -11,6 +11,7 @@ RULE = ("plans: listener protocol (http, https, socks5 interactive/pipelined, so
         "unreachable, black-holed connect, DNS failure, upstream HTTP proxy says 403/407/503/garbage/closes mid-head, upstream SOCKS says no/closes, "
         "upstream dies right after its success reply, deny rule, no rule, UDP on a TCP-only upstream, BIND/unknown command, bad credentials, UDP association "
         "that later times out) x chaos; non-trivial = the client got at least one reply byte or a refusal by close; distinct = (class x event-order hash)")
+RULE_MORE = 'Later additions: verbose upstream refusals; alternative well-formed grants; invalid SOCKS4 reply codes; a wrong version byte in the SOCKS5 request; upstream refusals of UDP tunnels; a UDP association granted with an unusable BND.ADDR, or whose relay socket cannot be set up.'
 LEVEL_TEXT = ("seeded exploration of the real binary: each plan scripts one upstream outcome and records every byte the client receives until EOF; "
               "independent reference parsers decide whether exactly one well-formed reply was sent, whether it says success, and the simulator's "
               "event order decides whether success was reported only after the upstream leg was really established")
